@@ -10,6 +10,7 @@ import (
 	"verif/harness/ansichk"
 	"verif/harness/fieldchk"
 	"verif/harness/filterchk"
+	"verif/harness/readchk"
 	"verif/harness/vk"
 )
 
@@ -19,6 +20,7 @@ var checks = map[string]func(prop, tier string) int{
 	"C03": algochk.Main,
 	"C04": filterchk.MainC04,
 	"C05": func(p, t string) int { return algochk.MainWith(p, t, filterchk.C05SubPhase) },
+	"C06": readchk.Main,
 	"C10": fieldchk.Main,
 	"C11": ansichk.Main,
 }
